@@ -48,6 +48,9 @@ def plan(tier, seed):
     shards = [('soup', 'default', 'SIG', L, k) for k in range(NSHARDS)]
     shards += [('soup', 'every', 'EVERY', LE, k) for k in range(NSHARDS)]
     shards += [('soup', 'extra', 'EXTRA', 3 if tier == 'quick' else 4, k) for k in range(NSHARDS)]
+    shards += [('soup', 'every-nounknown', 'EVERY', 2 if tier == 'quick' else 3, k)
+               for k in range(NSHARDS)]
+    shards += [('vsoup', 2 if tier == 'quick' else 3, k) for k in range(NSHARDS)]
     shards += [('rand', nrand // NSHARDS, seed * 1000 + k) for k in range(NSHARDS)]
     shards += [('docs', ndocs // NSHARDS, seed * 1000 + 100 + k) for k in range(NSHARDS)]
     shards += [('comp', ncomp // NSHARDS, seed * 1000 + 200 + k) for k in range(NSHARDS)]
@@ -59,7 +62,8 @@ def plan(tier, seed):
             'required_classes': ['strict-ok', 'recovery', 'comp:prefix-checked',
                                  'comp:nested-opener', 'stray:}', 'stray:\\end{x}',
                                  'stray:\\)', 'stray:\\]', 'error-at:first', 'error-at:middle',
-                                 'error-at:last', 'unclosed:checked']}
+                                 'error-at:last', 'unclosed:checked', 'inner-document:checked',
+                                 'variants']}
 
 
 def tolerant(s, ctxname):
@@ -84,6 +88,46 @@ def strict(s, ctxname):
         return 'other', e
     except Exception as e:
         return 'other', e
+
+
+def variant_parse(s, variant):
+    """tolerant parses through other public routes: a parsing state without a context database,
+    a user-supplied (non-tolerant) token reader with a tolerant walker, the expression parser"""
+    from pylatexenc.latexwalker import LatexWalker
+    from pylatexenc.latexnodes import ParsingState, LatexTokenReader
+    from pylatexenc.latexnodes import parsers as P
+    w = LatexWalker(s, latex_context=ctx('default'), tolerant_parsing=True)
+    with monitor.budget(len(s)):
+        if variant == 'no-context':
+            ps = ParsingState(s=s, latex_context=None)
+            return w.parse_content(P.LatexGeneralNodesParser(), parsing_state=ps)[0]
+        if variant == 'own-reader':
+            return w.parse_content(P.LatexGeneralNodesParser(), token_reader=LatexTokenReader(s))[0]
+        if variant == 'own-reader:expression':
+            return w.parse_content(P.LatexExpressionParser(), token_reader=LatexTokenReader(s))[0]
+        if variant == 'expression':
+            return w.parse_content(P.LatexExpressionParser())[0]
+        if variant == 'forbidden-characters':
+            ps = w.make_parsing_state(forbidden_characters='a$')
+            return w.parse_content(P.LatexGeneralNodesParser(), parsing_state=ps)[0]
+    raise ValueError(variant)
+
+
+VARIANTS = ['no-context', 'own-reader', 'own-reader:expression', 'expression',
+            'forbidden-characters']
+
+
+def check_variants(s, res, case):
+    for v in VARIANTS:
+        res.case()
+        try:
+            variant_parse(s, v)
+        except monitor.NonTermination as e:
+            res.fail(monitor.nonterm_key(e), 'tolerant parse (%s) does not terminate' % v,
+                     dict(case, variant=v))
+        except Exception as e:
+            res.fail(exc_key(e), exc_detail(e) + ' (%s) on %r' % (v, s), dict(case, variant=v))
+    res.label('variants')
 
 
 def check_source(s, ctxname, res, case, count_nontriv=True):
@@ -138,6 +182,9 @@ def check_composite(comp, res):
         return
     if op2:
         check_unclosed(comp, s, tv, res, case)
+    elif opener in TEXT_OPENERS and D2:
+        # the well-formed document inside the still-open construct also precedes the error
+        check_unclosed(comp, s, tv, res, case, what='inside-open-construct-before-stray-token')
     sk, sv = strict(D, ctxname)
     if sk != 'ok':
         res.label('comp:base-not-accepted')
@@ -156,7 +203,9 @@ def check_composite(comp, res):
                  'result for %r: got %r' % (D, s, str(got_nodes)[:300]), case)
 
 
-TEXT_OPENERS = ['\\begin{x}', '\\begin{itemize}', '\\textbf{', '{']
+# openers after which a following document reads exactly as it does on its own (text mode, no
+# argument still expected: \begin{itemize} is not one of them, it takes an optional [..])
+TEXT_OPENERS = ['\\begin{x}', '\\textbf{', '{']
 
 
 def chars_nodes(nl, shift=0):
@@ -165,7 +214,7 @@ def chars_nodes(nl, shift=0):
                and n.pos is not None)
 
 
-def check_unclosed(comp, s, tv, res, case):
+def check_unclosed(comp, s, tv, res, case, what='unclosed-at-end-of-input'):
     """D + opener + D2 + op2 + D3 with nothing closed at the end of input: the first syntax error
     (strict mode) lies inside op2's contents, so everything D2 contains precedes it and must be
     in the tolerant result: each chars node of strict(D2), shifted, is a chars node of it."""
@@ -178,12 +227,12 @@ def check_unclosed(comp, s, tv, res, case):
     k2, v2 = strict(D2, ctxname)
     if k2 != 'ok':
         return
-    res.label('unclosed:checked', case)
+    res.label('unclosed:checked' if what.startswith('unclosed') else 'inner-document:checked', case)
     want = chars_nodes(v2, len(D + opener))
     got = chars_nodes(tv)
     missing = sorted(want - got)
     if missing:
-        res.fail('c06:content-before-error-lost:unclosed-at-end-of-input',
+        res.fail('c06:content-before-error-lost:' + what,
                  'strict mode reports the first error at %d; the chars node(s) %r of the '
                  'well-formed part before it are not in the tolerant result for %r'
                  % (sv.pos, missing[:3], s), case)
@@ -225,6 +274,11 @@ def run_shard(shard, res):
             check_source(''.join(toks), ctxname, res,
                          {'kind': 'soup', 'ctx': ctxname, 'tokens': list(toks)})
         res.exhaustive = True
+    elif kind == 'vsoup':
+        _, L, k = shard
+        for toks in soups.enum_tokens(SIG, L, k, NSHARDS):
+            check_variants(''.join(toks), res, {'kind': 'variant', 'tokens': list(toks)})
+        res.exhaustive = True
     elif kind == 'rand':
         _, n, seed = shard
 
@@ -256,6 +310,20 @@ def fuzz_case(s, i):
 
 
 def check_case(case, res):
+    if case['kind'] == 'variant':
+        v = case.get('variant')
+        s = ''.join(case['tokens'])
+        if v is None:
+            check_variants(s, res, case)
+            return
+        res.case()
+        try:
+            variant_parse(s, v)
+        except monitor.NonTermination as e:
+            res.fail(monitor.nonterm_key(e), 'tolerant parse (%s) does not terminate' % v, case)
+        except Exception as e:
+            res.fail(exc_key(e), exc_detail(e) + ' (%s) on %r' % (v, s), case)
+        return
     if case['kind'] == 'soup':
         check_source(''.join(case['tokens']), case['ctx'], res, case)
     elif case['kind'] == 'src':
@@ -269,7 +337,7 @@ def minimise(case, key):
         r = Result()
         check_case(c, r)
         return key in r.failures
-    if case['kind'] == 'soup':
+    if case['kind'] in ('soup', 'variant'):
         return dict(case, tokens=ddmin(case['tokens'], lambda t: holds(dict(case, tokens=list(t)))))
     if case['kind'] == 'src':
         return dict(case, src=''.join(ddmin(list(case['src']),
